@@ -163,6 +163,7 @@ pub fn worker_main(prop: &dyn Property, tier: Tier, seed: u64, start: u64, strid
     let mut samples: Vec<Json> = vec![];
     let mut seen_keys: BTreeMap<String, u64> = BTreeMap::new();
     let trace_runs = std::env::var("VERIF_TRACE_RUNS").is_ok();
+    let mut minimised_keys = 0usize;
     let mut run = start;
     while run < end {
         {
@@ -202,7 +203,10 @@ pub fn worker_main(prop: &dyn Property, tier: Tier, seed: u64, start: u64, strid
         if let Some(viol) = v.violation {
             let n = seen_keys.entry(viol.key.clone()).or_insert(0);
             *n += 1;
-            if *n == 1 && !trace_runs {
+            // a badly broken tree produces hundreds of distinct keys: each worker minimises and
+            // reports its first few, the others are only counted (violation_counts_by_key)
+            minimised_keys += (*n == 1) as usize;
+            if *n == 1 && !trace_runs && minimised_keys <= 4 {
                 let (min_case, path, execs) = minimise(case, &viol.key, 1500);
                 let mv = min_case.execute();
                 let detail = mv
